@@ -81,6 +81,15 @@ def _setup():
         # early whatever max_patience is (seeded change C15e tied the per-epoch keys to max_patience)
         return 1.0 - 0.001 * params.p
 
+    # the same loss as an instance of a SUBCLASS of the library's MaximumLikelihoodLoss that uses the documented `key` argument
+    # (e.g. per-batch dequantisation noise): seeded change C15f stopped splitting keys for isinstance(loss_fn, MaximumLikelihoodLoss)
+    from flowjax.train.losses import MaximumLikelihoodLoss
+
+    class KeyedML(MaximumLikelihoodLoss):
+        def __call__(self, params, static, x, condition=None, key=None):
+            return loss_fn(params, static, x, condition, key)
+
+    _state["loss_ml_subclass"] = KeyedML()
     # jr.split(k, 2)[i] == jr.split(k, 3)[i]: the model's key paths do not record the fan-out
     k = jr.PRNGKey(12345)
     fanout_free = bool((np.asarray(jr.split(k, 2)) == np.asarray(jr.split(k, 3))[:2]).all())
@@ -133,7 +142,7 @@ def run_impl(case):
     raised, final_p = None, None
     try:
         d, _ = s["fit_to_data"](
-            _root_key(case), s["M"](jnp.array(0.0)), x, condition=c, loss_fn=s["loss_fn"], max_epochs=case["epochs"],
+            _root_key(case), s["M"](jnp.array(0.0)), x, condition=c, loss_fn=s["loss_ml_subclass"] if case.get("loss_kind") == "ml-subclass" else s["loss_fn"], max_epochs=case["epochs"],
             max_patience=case.get("patience", BIG_PATIENCE), batch_size=case["bs"], val_prop=case["val_prop"], optimizer=s["opt"],
             return_best=False, show_progress=False,
         )
@@ -373,6 +382,10 @@ def gen_cases(ctx):
         vp, bs = [(0.0, int(r.integers(1, 4))), (1.0, int(r.integers(1, 4))), (gen_val_prop(r, max(n, 2)), 0)][int(r.integers(3))]
         cases.append(dict(n=n, bs=bs, val_prop=float(vp), has_cond=bool(r.integers(2)), epochs=int(r.integers(0, 3)),
                           seed=int(r.integers(0, 2 ** 31 - 1)), typed_key=False))
+    # the loss as a key-consuming subclass instance of MaximumLikelihoodLoss instead of a plain function
+    for c in cases:
+        if r.random() < 0.25:
+            c["loss_kind"] = "ml-subclass"
     # max_patience: the loss never stops improving, so every value must give the same run
     for c in cases:
         if r.random() < 0.5:
